@@ -18,7 +18,7 @@ for p in props:
         c = claims["claimed"][pid]
         m["checks"].append({"property_id": pid, "quick_cmd": "./check %s quick" % pid, "thorough_cmd": "./check %s thorough" % pid,
             "evidence_file": "/verif/evidence/%s.json" % pid, "replay_cmd_template": "./check --replay {path}", "engine": "vc",
-            "level_claimed": {"category": c.get("category", "proof"), "text": c["text"], "design_ref": "DESIGN.md section 7, " + pid},
+            "level_claimed": {"category": c.get("category", "proof"), "text": c["text"], "design_ref": "DESIGN.md Part I section I.4 (as built) and Part II section 7 (plan), " + pid},
             "level_note": c["note"], "technique": c.get("technique", "CBMC function contracts (dfcc) on the real code")})
     else:
         m["not_applicable"].append({"property_id": pid, "reason": claims["not_claimed"].get(pid, "check not built yet in this session (contracts planned in DESIGN.md section 7); not claimed")})
